@@ -2,9 +2,10 @@
 import re
 from props.common_prog import judge_prog
 
-THEOREM_MODULES = ["Hcl.Theorems.C04", "Hcl.Theorems.Effects", "Hcl.Tie.Fixed"]
+THEOREM_MODULES = ["Hcl.Theorems.C04", "Hcl.Theorems.Effects", "Hcl.Tie.Fixed", "Hcl.Tie.PinsStep"]
 THEOREMS = {"Hcl.Theorems.Effects": ["C04_C05_accepted_effect", "portWrite_spec", "writeMem_effect", "writeReg_effect"], "Hcl.Tie.Fixed": ["Tie.Fixed.fixedFunctions"], "Hcl.Theorems.C04": ["C04_accepted_order", "C04_read", "C04_write_port", "C04_write_E_then_M", "C04_M_wins", "C04_reg15",
-                                 "C04_reg15_invariant", "regWrite_get_other"]}
+                                 "C04_reg15_invariant", "regWrite_get_other"],
+            "Hcl.Tie.PinsStep": ["Tie.PinsStep.pinStepWithOutput"]}
 
 RULE = ("S-PROG regfile profile: reg_srcA/B, reg_dstE/M driven from a counter (small ranges, masks, REG_NONE) so that "
         "dstE = dstM, src = dst in the same cycle and register 15 on every port all occur; inputs are random 64-bit "
